@@ -71,14 +71,23 @@ def cases(rng, tier):
         cs.append(("incl %s %s%s" % (a.fmt(), b.fmt(), " SWEEP" if i % 40 == 0 else ""), "random"))
     return cs
 def nontrivial(c, impl, verd): t = verd.split(); return "Anonempty" in t and "Bnonempty" in t
+_cases0 = cases
+def cases(rng, tier):
+    """every non-corpus case gets a symbol-name salt (0..39): the symbolic alphabet is process-wide, so over a run up to ~200 symbol codes, i.e. many MTBDD bit patterns, are used"""
+    out = []
+    for (c, fam) in _cases0(rng, tier):
+        out.append((c if fam == "corpus" else c + " SALT %d" % rng.randrange(40), fam))
+    return out
 def observe(dist, c, impl, verd):
     for k in verd.split():
         if k in ("included", "notincluded", "Aempty", "Bempty"): dist[k] = dist.get(k, 0) + 1
-    if c.endswith("SWEEP"): dist["flag_sweeps"] = dist.get("flag_sweeps", 0) + 1
+    if " SWEEP" in c: dist["flag_sweeps"] = dist.get("flag_sweeps", 0) + 1
 def shrink_candidates(c):
-    sw = c.endswith(" SWEEP")
-    base = c[:-6] if sw else c
-    for cand in gen.shrink_automata(base): yield cand + (" SWEEP" if sw else "")
+    tail = ""
+    base = c
+    if " SALT " in base: base, salt = base.rsplit(" SALT ", 1); tail = " SALT " + salt
+    if base.endswith(" SWEEP"): base = base[:-6]; tail = " SWEEP" + tail
+    for cand in gen.shrink_automata(base): yield cand + tail
 def explain(c, impl, verd):
     return ("case = incl <A> <B> [SWEEP]; impl = V <td_rec_nosim td_rec_opt_nosim td_rec_sim td_rec_opt_sim bu_up_nosim bu_down_rec_sim> F <for SWEEP cases: outcome of "
             "each of the 128 flag words on the top-down then the bottom-up encoding: 0/1 verdict, N = NotImplementedException, skip> I <operands dumped back>; a gate named "
@@ -89,7 +98,7 @@ def kf_bu_up_union(c, impl, verd, k):
     if not verd.startswith("FAIL ") or " notincluded" not in verd: return False
     gates = set(verd.split()[1].split(","))
     if not gates <= {"bu_up_nosim", "sweep_bu_0", "sweep_bu_32", "sweep_bu_64", "sweep_bu_96", "sweep_bu_4", "sweep_bu_8", "sweep_bu_12"}: return False
-    if "bu_up_nosim" not in gates and not c.endswith("SWEEP"): return False
+    if "bu_up_nosim" not in gates and " SWEEP" not in c: return False
     v = impl.split()
     return len(v) > 5 and v[5] == "1"
 LEVEL_TEXT = ("Coq theorems: the verdict function every implemented selection must compute is true exactly when L(A) is included in L(B) (all automata, no bounds) — the same "
